@@ -34,6 +34,7 @@ def extract(toks):
             out.append(toks[i])
             i += 1
             continue
+        dline = toks[i][3]
         i += 1
         prio = 0
         if i < n and toks[i][0] == L.PRIORITY:
@@ -70,7 +71,7 @@ def extract(toks):
                 if v >= INT_MAX or v >= nslots:
                     raise Malformed("insertion index beyond slots")
         macros.append({"prio": prio, "pattern": pat, "body": body, "order": len(macros),
-                       "file": pat[0][2], "line": pat[0][3]})
+                       "file": pat[0][2], "line": pat[0][3], "dline": dline})
     return out, macros
 
 
